@@ -12,6 +12,7 @@ import (
 	"io"
 	"math/rand"
 	"net"
+	"strings"
 	"sync"
 	"time"
 
@@ -581,9 +582,9 @@ func printGrouped(prefix string, m *Message, a *AVP, indent int) string {
 			}
 		} else {
 			if ga.Data.Type() == GroupedAVPType {
-				indent++
-				tabs := indentTabs(indent)
-				fmt.Fprintf(&b, "%s%s %s\n", tabs, dictAVP.Name, printGrouped(tabs, m, ga, indent))
+				// Members of one group share one indentation level.
+				tabs := indentTabs(indent + 1)
+				fmt.Fprintf(&b, "%s%s %s\n", tabs, dictAVP.Name, printGrouped(tabs, m, ga, indent+1))
 			} else {
 				fmt.Fprintf(&b, "%s\t%s %s,\n", prefix, dictAVP.Name, ga)
 			}
@@ -594,11 +595,7 @@ func printGrouped(prefix string, m *Message, a *AVP, indent int) string {
 }
 
 func indentTabs(n int) string {
-	var s string
-	for i := 0; i < n; i++ {
-		s += "\t"
-	}
-	return s
+	return strings.Repeat("\t", n)
 }
 
 // Context returns the message's context. To change the context, use
